@@ -22,13 +22,17 @@
 EXTENDS Naturals, Sequences, FiniteSets
 
 CONSTANTS Apply(_, _),     \* value of node n applied to the sequence of argument values
-          None             \* placeholder value of transient nodes in val
+          None,            \* placeholder value of transient nodes in val
+          ErrVal              \* Apply's result when the node's function raises (no value is produced)
 
 VARIABLES N, kind, inp,            \* the graph (fixed by the initial predicate)
+          ord,                     \* the topological order in which Model.update sweeps (a permutation of 1..N;
+                                   \* matters only for *where* a sweep is aborted by an exception)
           val, flag, auto, slots, dirty,
-          evald                    \* caching nodes evaluated by the last operation
-gvars == <<N, kind, inp>>
-svars == <<val, flag, auto, slots, dirty, evald>>
+          evald,                   \* caching nodes evaluated by the last operation
+          raised                   \* the last operation was aborted by an exception of a node function
+gvars == <<N, kind, inp, ord>>
+svars == <<val, flag, auto, slots, dirty, evald, raised>>
 
 Node == 1..N
 Transient(n) == kind[n] \in {"t", "p"}
@@ -72,14 +76,17 @@ OutdUpTo(k, f) ==
                         ELSE \E m \in Ins(k) : o[m]]
 Outd(f) == OutdUpTo(N, f)
 
-\* Model.update: sweep in topological order over the nodes in S
+\* Model.update: sweep in topological order over the nodes in S.  A node function that raises aborts the sweep:
+\* what was recomputed so far stays, the failing node and everything after it keep their flags (5th component)
 RECURSIVE SweepFrom(_, _, _, _, _, _)
 SweepFrom(k, S, v, f, d, e) ==
-  IF k > N THEN <<v, f, d, e>>
-  ELSE IF k \in S /\ kind[k] = "c" /\ f[k]
-       THEN SweepFrom(k + 1, S,
-                      [v EXCEPT ![k] = App(k, [i \in 1..Len(inp[k]) |-> Eff(v)[inp[k][i]]])],
-                      [f EXCEPT ![k] = FALSE], [d EXCEPT ![k] = FALSE], e \cup {k})
+  IF k > N THEN <<v, f, d, e, FALSE>>
+  ELSE LET n == ord[k] IN
+       IF n \in S /\ kind[n] = "c" /\ f[n]
+       THEN LET x == App(n, [i \in 1..Len(inp[n]) |-> Eff(v)[inp[n][i]]]) IN
+            IF x = ErrVal THEN <<v, f, d, e, TRUE>>
+            ELSE SweepFrom(k + 1, S, [v EXCEPT ![n] = x],
+                           [f EXCEPT ![n] = FALSE], [d EXCEPT ![n] = FALSE], e \cup {n})
        ELSE SweepFrom(k + 1, S, v, f, d, e)
 Sweep(S, v, f, d) == SweepFrom(1, S, v, f, d, {})
 
@@ -93,17 +100,17 @@ AssignRes(n, x, v, f, d, a) ==
   LET v1 == [v EXCEPT ![n] = x]
       f1 == FlagDesc(n, f)
       d1 == DirtyDesc(n, d)
-  IN IF a THEN Sweep(Node, v1, f1, d1) ELSE <<v1, f1, d1, {}>>
+  IN IF a THEN Sweep(Node, v1, f1, d1) ELSE <<v1, f1, d1, {}, FALSE>>
 
 -----------------------------------------------------------------------------
-Set4(r) == val' = r[1] /\ flag' = r[2] /\ dirty' = r[3] /\ evald' = r[4]
+Set4(r) == val' = r[1] /\ flag' = r[2] /\ dirty' = r[3] /\ evald' = r[4] /\ raised' = r[5]
 
 Assign(n, x) ==
   /\ kind[n] = "v"
   /\ Set4(AssignRes(n, x, val, flag, dirty, auto))
   /\ UNCHANGED <<gvars, auto, slots>>
 
-SetAuto(b) == auto' = b /\ evald' = {} /\ UNCHANGED <<gvars, val, flag, slots, dirty>>
+SetAuto(b) == auto' = b /\ evald' = {} /\ raised' = FALSE /\ UNCHANGED <<gvars, val, flag, slots, dirty>>
 
 UpdateAll ==
   /\ Set4(Sweep(Node, val, flag, dirty))
@@ -118,12 +125,12 @@ UpdateTargets(T) ==
 \* Model.state getter / setter
 Save ==
   /\ slots' = Append(slots, <<val, flag, dirty>>)
-  /\ evald' = {}
+  /\ evald' = {} /\ raised' = FALSE
   /\ UNCHANGED <<gvars, val, flag, auto, dirty>>
 Restore(s) ==
   /\ s \in 1..Len(slots)
   /\ val' = slots[s][1] /\ flag' = slots[s][2] /\ dirty' = slots[s][3]
-  /\ evald' = {}
+  /\ evald' = {} /\ raised' = FALSE
   /\ UNCHANGED <<gvars, auto, slots>>
 
 -----------------------------------------------------------------------------
@@ -140,16 +147,18 @@ CONSTANTS Draw(_, _, _), FromScratch
 
 RECURSIVE SimFrom(_, _, _, _, _, _, _)
 SimFrom(j, simd, v, f, d, e, a) ==
-  IF j > Len(simd) THEN <<v, f, d, e>>
+  IF j > Len(simd) THEN <<v, f, d, e, FALSE>>
   ELSE LET s == simd[j]
            src == IF FromScratch THEN Fresh(v) ELSE Eff(v)
            pv == [i \in 1..Len(s.params) |-> src[s.params[i]]]
            \* with FromScratch the code refreshes the parameter inputs first
            pre == IF FromScratch
                   THEN Sweep(UNION {{p} \cup Anc(p) : p \in SeqSet(s.params)}, v, f, d)
-                  ELSE <<v, f, d, {}>>
+                  ELSE <<v, f, d, {}, FALSE>>
            r == AssignRes(s.target, Draw(s.d, s.r, pv), pre[1], pre[2], pre[3], a)
-       IN SimFrom(j + 1, simd, r[1], r[2], r[3], e \cup pre[4] \cup r[4], a)
+       IN IF pre[5] THEN <<pre[1], pre[2], pre[3], e \cup pre[4], TRUE>>
+          ELSE IF r[5] THEN <<r[1], r[2], r[3], e \cup pre[4] \cup r[4], TRUE>>
+          ELSE SimFrom(j + 1, simd, r[1], r[2], r[3], e \cup pre[4] \cup r[4], a)
 
 Simulate(simd) ==
   /\ Set4(SimFrom(1, simd, val, flag, dirty, {}, auto))
@@ -160,6 +169,6 @@ Simulate(simd) ==
 Coherent == \A n \in Node : ~Outd(flag)[n] => Eff(val)[n] = Fresh(val)[n]
 FlagIffDirty == \A n \in Node : kind[n] = "c" => (flag[n] <=> dirty[n])
 \* action properties, stated on the post-state of the respective action
-FullUpdateClean == \A n \in Node : ~Outd(flag)[n]
-TargetsCleanFor(T) == \A n \in Targets(T) : ~Outd(flag)[n]
+FullUpdateClean == raised \/ \A n \in Node : ~Outd(flag)[n]
+TargetsCleanFor(T) == raised \/ \A n \in Targets(T) : ~Outd(flag)[n]
 =============================================================================
